@@ -128,16 +128,17 @@ def default_prior(poly_trend=1, n_offsets=0, P_unit="day", v_unit="km/s", s=None
     from thejoker import JokerPrior
     vu = u.Unit(v_unit)
     pu = u.Unit(P_unit)
+    f = (1 * u.km / u.s).to_value(vu)      # all prior scales are fixed physically (in km/s) and only *expressed* in vu
     with pm.Model() as model:
         pars = {}
         if s is not None:
-            pars["s"] = xu.with_unit(pm.Lognormal("s", -2.0, 0.5), vu)
+            pars["s"] = xu.with_unit(pm.Lognormal("s", -2.0 + np.log(f), 0.5), vu)
         offs = []
         for k in range(n_offsets):
-            offs.append(xu.with_unit(pm.Normal(f"dv0_{k+1}", 0.3 * (k + 1), 2.0 + k), vu))
+            offs.append(xu.with_unit(pm.Normal(f"dv0_{k+1}", 0.3 * (k + 1) * f, (2.0 + k) * f), vu))
         if custom_K:
-            pars["K"] = xu.with_unit(pm.Normal("K", 0.7, 11.0), vu)
-        sigma_v = [(30.0 / (10.0 ** i)) * vu / u.day ** i for i in range(poly_trend)]
+            pars["K"] = xu.with_unit(pm.Normal("K", 0.7 * f, 11.0 * f), vu)
+        sigma_v = [(30.0 * f / (10.0 ** i)) * vu / u.day ** i for i in range(poly_trend)]
         prior = JokerPrior.default(P_min=(2 * u.day).to(pu), P_max=(256 * u.day).to(pu),
                                    sigma_K0=(25 * u.km / u.s).to(vu), P0=(1 * u.year),
                                    sigma_v=sigma_v if poly_trend > 1 else sigma_v[0], poly_trend=poly_trend,
@@ -146,12 +147,12 @@ def default_prior(poly_trend=1, n_offsets=0, P_unit="day", v_unit="km/s", s=None
     return prior
 
 
-def make_data(n=6, seed=3, unit="km/s", with_offsets=0, t_ref=None):
+def make_data(n=6, seed=3, unit="km/s", with_offsets=0, t_ref=None, t_shift=0.0):
     import astropy.units as u
     from astropy.time import Time
     from thejoker import RVData
     rng = np.random.default_rng(seed)
-    t = np.sort(rng.uniform(55000.0, 55400.0, size=n))
+    t = np.sort(rng.uniform(55000.0, 55400.0, size=n)) + t_shift
     rv = rng.normal(0, 20, size=n)
     err = rng.uniform(0.3, 1.5, size=n)
     vu = u.Unit(unit)
@@ -162,3 +163,30 @@ def make_data(n=6, seed=3, unit="km/s", with_offsets=0, t_ref=None):
 def kernel_in_sync():
     from jvc import extract
     return extract.kernel_sync_status()["in_sync"]
+
+
+_kernel_state = {}
+
+
+def install_kernel():
+    """When the compiled extension is stale w.r.t. the .pyx (no Cython in this sandbox), substitute the executable depyx of the
+    CURRENT .pyx source for CJokerHelper, so that the twins exercise the source that the contracts were proved on.
+    Returns True when the compiled kernel is in sync (nothing substituted)."""
+    if "in_sync" in _kernel_state:
+        return _kernel_state["in_sync"]
+    in_sync = kernel_in_sync()
+    _kernel_state["in_sync"] = in_sync
+    if not in_sync:
+        import pyx_exec
+        repo = os.environ.get("VERIF_REPO", "/repo")
+        mod, _ = pyx_exec.build(os.path.join(repo, "thejoker/src/fast_likelihood.pyx"))
+        import thejoker.src.fast_likelihood as fl
+        import thejoker.thejoker as tj
+        fl.CJokerHelper = mod.CJokerHelper
+        tj.CJokerHelper = mod.CJokerHelper
+        _kernel_state["module"] = mod
+    return in_sync
+
+
+def closed_form_ll(data_list_or_single, prior_cfg, row, trend_M, all_data, rv_unit=None):
+    raise NotImplementedError
